@@ -51,6 +51,12 @@ def abstract_install(rng):
         for z in zs:
             zones[z] = dict(name=rng.choice(NAMES), sensor=rng.random() < 0.7, turbo=True, ctrl=rng.choice([0, 1]),
                             power=rng.choice([0, 1, 3]), damper=rng.choice([0, 5, 50, 100]), setpoint=rng.randint(18, 28))
+    if n_acs < 4 and rng.random() < 0.25:
+        # one more unit that serves no zone at all (an unzoned split system next to the ducted one): empty group bitmap on AirTouch 4 -
+        # whose legacy start / count fields are then meaningless, as real consoles leave them - and zone count 0 on AirTouch 5
+        lo, hi = 17, 30
+        acs.append(dict(id=n_acs, name="Unzoned", modes=0x1F, fans=0x7F, lo=lo, hi=hi, zones=[], start=rng.choice([0, 1, 3]), count=rng.choice([1, 2, 4]),
+                        mode=rng.choice([0, 1, 4]), power=rng.choice([0, 1]), fan=0, setpoint=22))
     return dict(acs=acs, zones=zones, version=rng.choice(["1.2.3", "9"]), update=0)
 
 
